@@ -72,6 +72,7 @@ EXPECT = [
     ('keep the type code of an encrypted block whose type was implied', ['C16']),
     ('keep the CRC type of the primary block on a reassembled bundle', ['C06']),
     ('keep a received transfer queued when recv_bundle_pop_file cannot write', ['C18']),
+    ('use a random content IV when the configured list', ['C16']),
     ('declare the Sender Listen interval of the UDPCL polling_received signal', ['C18']),
 ]
 
